@@ -246,10 +246,12 @@ func callsFn(in ssa.Instruction, fn *ssa.Function) bool {
 func (c *Ctx) queueTest(f ir.Fact) (empty bool, ok bool) {
 	e, zero, ok := ir.ZeroTest(f.Cond, f.Truth)
 	if !ok {
-		// writeList != nil / == nil also counts as an emptiness test in this code base
+		// writeList == nil is NOT an emptiness test: flush pops with writeList[1:] and
+		// leaves an empty non-nil slice.  Only "!= nil" implies nothing (may be empty),
+		// and "== nil" implies empty.
 		x, isNil, ok2 := ir.NilTest(f.Cond, f.Truth)
-		if ok2 && c.P.LoadedField(x) == fConnWriteList {
-			return isNil, true
+		if ok2 && isNil && c.P.LoadedField(x) == fConnWriteList {
+			return true, true
 		}
 		return false, false
 	}
